@@ -360,7 +360,7 @@ class C06:
     excl = {'D17': 0, 'D18': 0, 'D73': 0}
 
     def budget(self, tier):
-        return 2200 if tier == 'quick' else 60000
+        return 2200 if tier == 'quick' else 26000
 
     def example(self, ch, ctx):
         st = ctx.stats
